@@ -1268,6 +1268,18 @@ void mode_info(EbDecHandle *dec_handle, PartitionInfo *part_info, ParseCtxt *par
         inter_frame_mode_info(dec_handle, parse_ctxt, part_info);
         inter_copy_frame_mvs(dec_handle, mi, mi_row, mi_col, x_mis, y_mis);
     }
+#ifdef SVT_AV1_VERIF
+    /* which coding tools the parsed syntax of this block uses (bit mask) */
+    SVT_VERIF_EVENT(SVT_VERIF_EV_DEC_TOOL,
+                    ((mi->palette_size[0] || mi->palette_size[1]) ? 1 : 0) | (mi->use_intrabc ? 2 : 0) |
+                        (mi->filter_intra_mode_info.use_filter_intra ? 4 : 0) |
+                        ((!mi->use_intrabc && mi->ref_frame[0] <= INTRA_FRAME && mi->uv_mode == UV_CFL_PRED) ? 8 : 0) |
+                        ((mi->ref_frame[0] > INTRA_FRAME && mi->is_inter_intra) ? 16 : 0) |
+                        ((mi->ref_frame[0] > INTRA_FRAME && mi->motion_mode == OBMC_CAUSAL) ? 32 : 0) |
+                        ((mi->ref_frame[0] > INTRA_FRAME && mi->motion_mode == WARPED_CAUSAL) ? 64 : 0) |
+                        ((mi->ref_frame[0] > INTRA_FRAME && (mi->mode == GLOBALMV || mi->mode == GLOBAL_GLOBALMV)) ? 128 : 0),
+                    frame_info->frame_type, mi_row, mi_col);
+#endif
 }
 
 TxSize read_tx_size(ParseCtxt *parse_ctxt, PartitionInfo *xd, int allow_select) {
